@@ -14,10 +14,12 @@ import (
 	"regexp"
 	"sort"
 	"strings"
+	"sync/atomic"
 	"testing"
 	"time"
 	"unicode/utf8"
 
+	"github.com/containerd/nri/pkg/adaptation"
 	"github.com/containerd/nri/pkg/api"
 	"pgregory.net/rapid"
 
@@ -31,6 +33,7 @@ const (
 	stallLate     = "late"      // calls RegisterPlugin >= 2 x the registration timeout after it was accepted
 	stallCfgHang  = "cfg-hang"  // registers, its Configure handler never answers
 	stallCfgErr   = "cfg-err"   // registers, answers Configure with an error
+	stallSyncHang = "sync-hang" // registers, configures, its Synchronize handler never answers
 	stallCfgClose = "cfg-close" // registers, closes its connection instead of answering Configure
 	stallSyncErr  = "sync-err"  // registers, configures, answers Synchronize with an error
 	// the peer's ttRPC server does not register Configure / Synchronize / any Plugin service:
@@ -126,6 +129,9 @@ type C17Case struct {
 	StartTimeoutMs  int `json:"start_timeout_ms,omitempty"`
 	SwitchAfter     int `json:"switch_after,omitempty"`
 	SwitchTimeoutMs int `json:"switch_timeout_ms,omitempty"`
+	// TTRPC: the client / server options the runtime passes through
+	// adaptation.WithTTRPCOptions (tokens: ttrpcopts_test.go), all pass-through.
+	TTRPC []string `json:"ttrpc,omitempty"`
 
 	// sock: <scratch>/e0/../m0/../nri.sock with len(Existing) pre-existing directories
 	// (chmod'ed to the given modes) followed by Missing directories Start has to create,
@@ -207,6 +213,8 @@ func judgeSpec(p Peer, T time.Duration) (valid bool, why string, timingOnly bool
 		reasons = append(reasons, "never registers")
 	case stallCfgHang:
 		reasons = append(reasons, "never answers Configure")
+	case stallSyncHang:
+		reasons = append(reasons, "never answers Synchronize")
 	case stallCfgClose:
 		reasons = append(reasons, "closes its connection instead of answering Configure")
 	case stallCfgErr:
@@ -412,8 +420,8 @@ func genGoodPeer(t *rapid.T, label string) Peer {
 }
 
 // genBadPeer starts from a good peer and breaks one (sometimes two) things. The three
-// defects that cost wall time (silent, late, cfg-hang, multi: one or two timeouts each) have a combined
-// weight of 7/27 so that the average case stays well below 0.4 s.
+// defects that cost wall time (silent, late, cfg-hang, sync-hang, multi: one or two timeouts each) have a combined
+// weight of 8/28 so that the average case stays well below 0.4 s.
 func genBadPeer(t *rapid.T, label string) Peer {
 	p := genGoodPeer(t, label)
 	defects := []string{
@@ -421,7 +429,7 @@ func genBadPeer(t *rapid.T, label string) Peer {
 		"two", "idx", "mask", stallSilent, stallCfgHang, "idx", "mask", "name", stallCfgErr,
 		stallMulti, stallMulti,
 		stallSyncErr, stallNoConfigure, stallSyncErr, stallNoSynchronize, stallNoService, stallCfgErr,
-		stallCfgClose,
+		stallCfgClose, stallSyncHang,
 	}
 	apply := func(d string, l string) {
 		switch d {
@@ -573,7 +581,30 @@ func genC17(t *rapid.T) C17Case {
 	c.Events = genEvents(t)
 	genExtras(t, &c)
 	genTimeouts(t, &c)
+	genTTRPC(t, &c)
 	return c
+}
+
+// genTTRPC draws the ttRPC options the runtime hands to adaptation.New (none in half of
+// the cases): 1-3 of the pass-through tokens in a drawn order, never two unchained server
+// interceptors (ttRPC refuses that).
+func genTTRPC(t *rapid.T, c *C17Case) {
+	if rapid.Bool().Draw(t, "ttrpc-none") {
+		return
+	}
+	n := rapid.SampledFrom([]int{1, 2, 1, 3}).Draw(t, "ttrpc-n")
+	seen := map[string]bool{}
+	for i := 0; i < n; i++ {
+		tok := rapid.SampledFrom([]string{ttClientUnary, ttServerUnary, ttClientChain, ttClientUnary, ttClientOnClose, ttServerChain, ttServerShake}).Draw(t, fmt.Sprintf("ttrpc%d", i))
+		if seen[tok] && (tok == ttServerUnary || tok == ttServerShake) {
+			continue
+		}
+		if tok == ttServerUnary && seen[ttServerChain] {
+			continue // an unchained interceptor after a chain is refused by ttRPC
+		}
+		seen[tok] = true
+		c.TTRPC = append(c.TTRPC, tok)
+	}
 }
 
 // genExtras lets some peers that get as far as Configure register again on their connection:
@@ -695,6 +726,9 @@ func runC17(c C17Case) ev.Outcome {
 		if p.Stall == stallMulti && time.Duration(p.GapMs)*time.Millisecond > c.peerTimeout(i)*3/4 {
 			return ev.Outcome{Excluded: "multi-gap-out-of-domain"} // gaps stay clearly below the registration timeout
 		}
+	}
+	if _, ok := ttrpcOption(c.TTRPC, new(atomic.Int64)); !ok || len(c.TTRPC) > 6 {
+		return ev.Outcome{Excluded: "ttrpc-options-out-of-domain"} // unknown token, or a list ttRPC refuses
 	}
 	defer setTimeouts(defaultTimeout) // runRegOnce sets the timeouts at the moments the case says
 
@@ -871,6 +905,10 @@ func regClasses(c C17Case) ev.Outcome {
 	if c.switches() {
 		classes["tmo:switched-between-peers"] = true
 	}
+	for _, t := range c.TTRPC {
+		classes["ttrpc-options"] = true
+		classes["ttrpc:"+t] = true
+	}
 	var ks []string
 	for k := range classes {
 		ks = append(ks, k)
@@ -910,8 +948,13 @@ type regHistory struct {
 func runRegOnce(c C17Case) (v regVerdict) {
 	// The Adaptation is created and started under the start timeout; the case's own timeout
 	// is set after Start() returned and before anybody connects.
+	var icalls atomic.Int64
+	var ropts []adaptation.Option
+	if o, _ := ttrpcOption(c.TTRPC, &icalls); o != nil {
+		ropts = append(ropts, o)
+	}
 	setTimeouts(c.startTimeout())
-	rt, err := fx.NewRuntime()
+	rt, err := fx.NewRuntime(ropts...)
 	setTimeouts(c.caseTimeout())
 	if err != nil {
 		return regVerdict{fail: "harness: cannot start an adaptation: " + err.Error()}
@@ -1134,7 +1177,7 @@ func runRegOnce(c C17Case) (v regVerdict) {
 			// (or does not implement) Synchronize necessarily was sent the Synchronize request;
 			// it must not become active: no events, no later requests.
 			var bad []string
-			syncFails := spec.Stall == stallSyncErr || spec.Stall == stallNoSynchronize
+			syncFails := spec.Stall == stallSyncErr || spec.Stall == stallNoSynchronize || spec.Stall == stallSyncHang
 			if r.NSync > 0 && !syncFails {
 				bad = append(bad, fmt.Sprintf("%d Synchronize", r.NSync))
 			}
